@@ -15,8 +15,8 @@ WORKERS = int(os.environ.get("VERIF_WORKERS", "16"))
 # (batches, runs per batch) at the default budget
 PLAN = {
     "C12": {"quick": (112, 20), "thorough": (4800, 30)},
-    "C06": {"quick": (160, 12), "thorough": (4000, 16)},
-    "C08": {"quick": (128, 10), "thorough": (3200, 14)},
+    "C06": {"quick": (448, 12), "thorough": (9600, 16)},
+    "C08": {"quick": (320, 10), "thorough": (8000, 14)},
 }
 DEFAULT_BUDGET = {"quick": 90.0, "thorough": 1500.0}
 
